@@ -88,7 +88,18 @@ def judge(case) -> Outcome:
         elif entry == "fitted_spec":
             with quiet():
                 fitted = model_matrix(form, pd.DataFrame(case["data"]), context={}).model_spec
-            ds = [fitted.differentiate(*wrt).formula]
+            dspec = fitted.differentiate(*wrt)
+            ds = [dspec.formula]
+            # the gradient of a fitted spec must itself materialize, to the same matrix as the differentiated formula
+            try:
+                with quiet():
+                    g1 = dense(dspec.get_model_matrix(pd.DataFrame(case["data"]), output="numpy", ensure_full_rank=False))
+                    g2 = dense(model_matrix(ds[0], pd.DataFrame(case["data"]), output="numpy", ensure_full_rank=False, context={}))
+                if g1.shape != g2.shape or not np.allclose(g1, g2):
+                    out.fail("c20.fitted_spec_gradient", f"{f!r} wrt {wrt}: gradient of the fitted spec materializes to {g1.shape} != differentiated formula {g2.shape} (or values differ)")
+                out.see("fitted_gradients_materialized")
+            except Exception as e:  # noqa: BLE001
+                out.fail("c20.fitted_spec_gradient", f"{f!r} wrt {wrt}: materializing the gradient of a fitted spec: {type(e).__name__}: {str(e)[:120]}")
         elif entry == "structured":
             ds = list(Formula(f"{f} | {f}", _ordering=case["ordering"]).differentiate(*wrt)._flatten())
         else:
@@ -161,6 +172,19 @@ def judge(case) -> Outcome:
                 out.fail("c20.finite_difference", f"{f!r} wrt {wrt} efr={efr}: constant derivative term {bad_const} wrong")
         else:
             out.see("numeric_ok_efr" if efr else "numeric_ok_full")
+        if not efr:
+            # the labelled (pandas) output must hold the same columns as the positional one
+            try:
+                with quiet():
+                    pm = model_matrix(d, df, output="pandas", ensure_full_rank=False, context={})
+                if pm.shape[1] != sum(c.shape[1] for c in dc):
+                    dup = [n for n in set(mm.model_spec.column_names) if list(mm.model_spec.column_names).count(n) > 1]
+                    if dup == ["Intercept"] and nlit >= 2:
+                        out.fail("c20.constant_terms_share_name", f"{f!r} wrt {wrt}: {nlit} literal-only derivative terms are all named 'Intercept'; the pandas output keeps one column of {sum(c.shape[1] for c in dc)}")
+                    else:
+                        out.fail("c20.pandas_columns_lost", f"{f!r} wrt {wrt}: pandas output has {pm.shape[1]} columns, numpy output {sum(c.shape[1] for c in dc)}")
+            except Exception as e:  # noqa: BLE001
+                out.fail("c20.materialize_raised", f"{f!r} wrt {wrt} pandas output: {type(e).__name__}: {str(e)[:150]}")
     return out
 
 
